@@ -474,6 +474,12 @@ func (r *Unwind) Process(ctx context.Context, man gdbi.Manager, in gdbi.InPipe, 
 				out <- t
 				continue
 			}
+			if t.GetCurrent() == nil {
+				// nothing to unwind on a traveler without a current element
+				// (null-producing steps): pass it on unchanged
+				out <- t
+				continue
+			}
 			v := jsonpath.TravelerPathLookup(t, r.Field)
 			if a, ok := v.([]interface{}); ok {
 				cur := t.GetCurrent()
